@@ -1,14 +1,19 @@
 pub mod alloccap;
 pub mod crash;
+pub mod dump;
+pub mod genq;
+pub mod model;
 pub mod panicmon;
 pub mod report;
 pub mod rng;
+pub mod search_ref;
 pub mod workers;
 pub mod wrap;
 
 use std::collections::BTreeMap;
 
 /// `--key value` argument parser
+#[derive(Clone)]
 pub struct Args {
     pub pos: Vec<String>,
     pub kv: BTreeMap<String, String>,
